@@ -29,7 +29,7 @@ type config struct {
 func configs() []config {
 	return []config{
 		{sm.Publish, 0}, {sm.Behavior, 0},
-		{sm.Replay, 1}, {sm.Replay, 2}, {sm.Replay, 3},
+		{sm.Replay, 0}, {sm.Replay, 1}, {sm.Replay, 2}, {sm.Replay, 3},
 		{sm.Async, 0},
 		{sm.Unicast, 1}, {sm.Unicast, 2}, {sm.Unicast, 3}, {sm.Unicast, -1}, {sm.Unicast, 0},
 	}
